@@ -4,6 +4,7 @@ import (
 	"fmt"
 	"net"
 	"net/netip"
+	"runtime/debug"
 	"time"
 
 	"github.com/uhppoted/uhppote-core/types"
@@ -523,11 +524,18 @@ func Call(u uhppote.IUHPPOTE, op string, serial uint32, a rm.Vals, aux Aux) (out
 }
 
 // SafeCall is Call with a recover: a panic inside the library becomes Outcome.Err = "panic: ...".
+// OnPanic, when set, is told about every panic SafeCall recovers (operation, panic value, stack): a call that neither
+// returns a value nor an error breaks whatever property the workload was checking.
+var OnPanic func(op string, r any, stack string)
+
 func SafeCall(u uhppote.IUHPPOTE, op string, serial uint32, a rm.Vals, aux Aux) (out rm.Outcome, panicked bool) {
 	defer func() {
 		if r := recover(); r != nil {
 			out = rm.Outcome{Err: fmt.Sprintf("panic: %v", r)}
 			panicked = true
+			if OnPanic != nil {
+				OnPanic(op, r, string(debug.Stack()))
+			}
 		}
 	}()
 	return Call(u, op, serial, a, aux), false
